@@ -85,3 +85,36 @@ Definition label_safe (r : role) (s : text) : bool :=
          | AsVariable => negb (in_texts (lower_text s) KEYWORD_FREE) && negb (in_texts (lower_text s) KEYWORD_INF)
          end
   end.
+
+(* ------------------------------------------------------------------ *)
+(* two adjacent words: Reader::processtokens joins two consecutive identifiers with a blank (after
+   lower-casing both) and looks the result up in the section keyword table - "subject to",
+   "such that".  In the file lp.dump writes, two labels are adjacent only in the name lists of the
+   Binary and General sections. *)
+Definition SPACE : N := 32%N.
+
+Definition reader_joins (a b : text) : bool :=
+  in_texts (lower_text a ++ [SPACE] ++ lower_text b) (map fst SECTION_KEYWORDS).
+
+Fixpoint adjacent_join (names : list text) : bool :=
+  match names with
+  | a :: ((b :: _) as r) => reader_joins a b || adjacent_join r
+  | _ => false
+  end.
+
+(* a Binary / General name list comes back as the same variables *)
+Definition names_section_read (names : list text) : bool :=
+  forallb (reader_reads_label AsVariable) names && negb (adjacent_join names).
+
+(* the keywords of the table that consist of two words, split at their blank *)
+Fixpoint split_space (s : text) : option (text * text) :=
+  match s with
+  | [] => None
+  | c :: r => if N.eqb c SPACE then Some ([], r)
+              else match split_space r with Some (x, y) => Some (c :: x, y) | None => None end
+  end.
+
+Definition two_word_keywords : list (text * text) :=
+  flat_map (fun kw => match split_space (fst kw) with Some p => [p] | None => [] end) SECTION_KEYWORDS.
+
+Definition pair_eqb (p q : text * text) : bool := text_eqb (fst p) (fst q) && text_eqb (snd p) (snd q).
